@@ -433,6 +433,22 @@ def job_symbolic(job):
                                                 'values': {str(k): str(v) for k, v in env.items()}, 'got': str(gotd)[:250], 'expected': str(expd)[:250]})
             if len(out['samples']) < 3:
                 out['samples'].append({'config': cfg, 'a': showmv(ak, av), 'b': showmv(bk, bv), 'values': {str(k): str(v) for k, v in env.items()}})
+        # float constants of every magnitude inside a called multivector (as a coefficient of its own and inside an expression): the
+        # generated function must carry the constant itself, in fixed and in scientific notation
+        t_ = sympy.Symbol('t')
+        k1_, k2_ = (1, 2) if alg.d >= 2 else (0, 1)
+        for c_ in (3.7e-10, 5e20, 1e-20, 2.5, 1e100, 123456789.0, 6.02e23, -4.0e-30, 1e-5):
+            out['evaluations'] += 1
+            try:
+                xc = mv_from(alg, (k2_, k1_), [c_, t_ * c_ + t_])
+                for wn, r_ in (('call-positional', xc(2)), ('call-keywords', xc(t=2))):
+                    gd = todict(r_)
+                    e1, e2 = 2 * c_ + 2, c_
+                    if abs(float(gd.get(k1_, 0)) - e1) > 1e-12 * abs(e1) or abs(float(gd.get(k2_, 0)) - e2) > 1e-12 * abs(e2):
+                        out['failures'].append({'config': cfg, 'op': 'call', 'what': f'symbolic then {wn} != numeric (float constant)', 'constant': repr(c_),
+                                                'got': str(gd)[:200], 'expected': str({k1_: e1, k2_: e2})})
+            except Exception as e:
+                out['failures'].append({'config': cfg, 'op': 'call', 'what': 'calling a multivector with a float constant raised', 'constant': repr(c_), 'error': repr(e)[:120]})
         # roots: norm / normalized / differences built from them on one- and two-blade symbolic operands, evaluated at negative
         # and positive values (an over-eager simplification such as sqrt(a**2) -> a is wrong exactly for negative a)
         import warnings
